@@ -40,6 +40,9 @@ func (k KeyPair) CertB64() string { return base64.StdEncoding.EncodeToString(k.C
 var rsaKeys []KeyPair // rsa0..rsa4
 var ecKeys []KeyPair  // ec0..ec1
 var rsaOld KeyPair    // a certificate that expired in 1999 (before the simulated clock starts): an IdP's previous key, still listed
+var rsaSig KeyPair    // keyUsage digitalSignature only (a key its owner meant for signing)
+var rsaSKI KeyPair    // a certificate carrying a SubjectKeyIdentifier, as openssl-made ones do
+var rsaSKIMal KeyPair // Mallory's key under a self-signed certificate copying rsaSKI's subject and SubjectKeyIdentifier
 
 func fixturesDir() string {
 	if d := os.Getenv("VERIF_FIXTURES"); d != "" {
@@ -81,6 +84,7 @@ func loadFixtures() {
 		ecKeys = append(ecKeys, loadKey(fmt.Sprintf("ec%d", i)))
 	}
 	rsaOld = loadKey("rsaold")
+	rsaSig, rsaSKI, rsaSKIMal = loadKey("rsasig"), loadKey("rsaski"), loadKey("rsaskimal")
 }
 
 // passVerifier is an application-supplied saml.SignatureVerifier that does what the library would do itself.
